@@ -224,7 +224,7 @@ func matchOKBlock(call *ssa.Call) *ssa.BasicBlock {
 
 // romanAlphabet returns the ASCII letters that occur in words of roman.pattern (from its automaton).
 func romanAlphabet(e *Env) string {
-	g := e.P.Var("roman", "pattern")
+	g := e.V("roman", "pattern")
 	if g == nil {
 		return ""
 	}
